@@ -44,14 +44,25 @@ class C12(Check):
             "real UDP/TCP servers. Kept writers: handlers that use their ResponseWriter after returning (Hijack + goroutine, "
             "Transfer.Out, late writes on an open and on a closed connection, late UDP replies) while other connections "
             "are accepted, served and closed: every reply on its own connection, in order, nothing anywhere else. "
+            "Servers that need the raw datagram after decoding it: scripted UDP histories against servers with TsigSecret "
+            "or an application TsigProvider, rich requests signed (five HMAC algorithms, per-request keys) correctly / "
+            "correctly and forwarded (ID differs from the TSIG original ID) / with another secret / an unknown key / a "
+            "stale time / not at all, each parked - inside the first decode or inside TSIG verification (Unpack callback "
+            "of a privately registered type), in TsigProvider.Verify, in MsgAcceptFunc, in the handler - while the next "
+            "two datagrams are received (one P and all Ps): the handler sees its client's request and TsigStatus() == nil "
+            "exactly when that client's signature is right, the client gets the echo signed in continuation of its own "
+            "request MAC, and no read returns a buffer whose datagram has not reached TsigProvider.Verify yet. "
             "Non-trivial = at least "
             "one message delivered or an ok exchange; distinct by hash.")
     partial = [
         "no mixing across requests, connections or recycled buffers under real concurrency is a RUNTIME OBSERVATION: "
         "scripted UDP server with 300 queued datagrams x8, 8 concurrent scripted TCP connections x8, 8 concurrent "
         "clients x 25 requests against real UDP and TCP servers on 127.0.0.1, the decoded-request-does-not-alias-the-"
-        "buffer test, the single-P buffer-recycling-order test and the kept-request tests (handlers parked while the "
-        "receive buffer of their request is recycled); the Go scheduler and kernel sockets are outside the model",
+        "buffer test, the single-P buffer-recycling-order test, the kept-request tests (handlers parked while the "
+        "receive buffer of their request is recycled) and the TSIG histories (requests parked inside decoding and inside "
+        "TSIG verification while the following datagrams are received; the LTS step StDecode stands for everything "
+        "serveDNS does with the raw octets before the Put, verification included); the Go scheduler and kernel sockets "
+        "are outside the model",
         "one response writer per connection/request - what a handler writes through a writer it kept beyond its call "
         "(Hijack, Transfer.Out, late writes) goes to its own connection only - is a RUNTIME OBSERVATION over scripted "
         "connections/datagrams and real TCP sockets (writer identity is not part of the model)",
